@@ -267,8 +267,11 @@ def parse_vspec(text: str, path: str) -> dict:
                 if gl.strip() and not re.match(r"^\s*let ghost [A-Za-z_][A-Za-z_0-9]*(\s*:[^=;]+)?\s*=[^;]*;\s*$", gl):
                     raise Undecided(f"{path}: @ghost accepts only `let ghost <name> = <path>;` lines, got {gl.strip()!r}")
             if section[1] != "entry":
-                raise Undecided(f"{path}: @ghost supports only the anchor `entry`")
-            cur.ghosts.append(t)
+                # `@ghost after "text"` / `@ghost before "text"`: ghost snapshots of intermediate states (same restricted
+                # `let ghost` form), spliced at the anchor as plain ghost statements instead of inside a proof block
+                cur.proofs.append((section[1], GHOST_MARK + t))
+            else:
+                cur.ghosts.append(t)
         buf = []
 
     for ln, line in enumerate(text.splitlines(), 1):
@@ -322,6 +325,7 @@ def parse_vspec(text: str, path: str) -> dict:
     return specs
 
 
+GHOST_MARK = "// vx:ghost-snapshot\n"
 GHOST_OK = re.compile(r"^\s*(requires|ensures|invariant|invariant_except_break|ensures|decreases|returns|no_unwind|opens_invariants)\b")
 
 
@@ -380,7 +384,7 @@ def splice_body(body: str, spec: FnSpec, n_loops: int, key: str, diverge_spec="e
             i = body.index("{")
             body = body[:i + 1] + "\n" + text + body[i + 1:]
         for anchor, text in spec.proofs:
-            block = "proof {\n" + text + "\n}"
+            block = text[len(GHOST_MARK):] if text.startswith(GHOST_MARK) else "proof {\n" + text + "\n}"
             if anchor == "entry":
                 i = body.index("{")
                 body = body[:i + 1] + "\n" + block + body[i + 1:]
